@@ -57,6 +57,14 @@ def corpus_histories():
     for r, w, forms in GRAMMAR_CORPUS:
         items.append((base, [{"kind": "register", "wkind": "Guess", "reading": r, "word": w}] +
                             [{"kind": "convert", "input": fr, "context": "Normal", "expect": fw} for fr, fw in forms]))
+    # many homophones registered at run time (40 words for one reading, next to two the dictionary already has): every one is offered
+    many = [{"kind": "register", "wkind": "CommonNoun" if i % 3 else "ProperNoun", "reading": "くるま", "word": f"来留間{i}"} for i in range(40)]
+    items.append((base, many + [{"kind": "convert", "input": "くるま", "context": "Normal", "expect": f"来留間{i}"} for i in (0, 1, 29, 30, 31, 32, 33, 39)]
+                        + [{"kind": "convert", "input": "くるま", "context": "Normal", "expect": "車"}]))
+    # a word for a reading that was converted just before and is converted again right after (homophone of an existing reading, and a new reading)
+    for r, w in (("くるま", "俥"), ("くるまで", "車出"), ("で", "出")):
+        items.append((base, [{"kind": "convert", "input": r, "context": "Normal"}, {"kind": "register", "wkind": "CommonNoun", "reading": r, "word": w},
+                             {"kind": "convert", "input": r, "context": "Normal", "expect": w}, {"kind": "proper", "input": r}, {"kind": "convert", "input": r, "context": "ForeignWord", "expect": w}]))
     # nouns whose readings use the rarer characters of the dictionary alphabet (long-vowel mark, small kana, ゔ-less voiced rows, latin letters)
     nouns = [("らーめん", "拉麺"), ("でーた", "資料"), ("こーひー", "珈琲"), ("ふぁいる", "書類"), ("じぇっと", "噴射"), ("tel", "電話"), ("ゐど", "井戸"), ("ゑ", "絵"), ("っ", "促音"), ("ー", "長音")]
     for kind in ("CommonNoun", "ProperNoun"):
@@ -106,7 +114,7 @@ def run(tier, seed):
         for what, detail in hr.problems:
             res.violation(what, {"base": hr.base, "requests": hr.requests, "detail": detail})
         before = {}
-        rqs = [r for r in hr.requests if r["kind"] != "malformed"]
+        rqs = [r for r in hr.requests if r["kind"] not in ("malformed", "wait_save")]
         changed = False
         for (ev, obs), rq in zip(hr.events, rqs):
             if obs is None:
@@ -147,7 +155,7 @@ def run(tier, seed):
         "rule": "registrations of the three kinds (guess kind with every ending the guesser recognises) with readings over the dictionary alphabet and written forms incl. ASCII and '/' ';', interleaved with conversions; "
                 "afterwards every conjugated form (computed by the real library) is converted and must be offered; probes before / after must only grow; non-trivial = a registration changes a probe's candidate list",
         "histories": len(runs), "traces_validated_against_impl": n_model, "concurrent_requests": conc,
-        "samples": [runs[len(GRAMMAR_CORPUS) + 2].requests[3:8]],
+        "samples": [runs[-1].requests[3:8]],
     }
     return res.finish(cov, ["readings outside the dictionary alphabet are not convertible (the property excludes them)"])
 
